@@ -425,7 +425,7 @@ def fp_cover(key, all_names):
             names = [f'Fq12_{fn}']
         elif ctx == 'impl G2' and fn in ('point_pi1', 'point_pi2', 'eval_g_tangent', 'eval_g_line', 'q_power_frobenius', 'g_line', 'g_tangent', 'miller_loop'):
             names = [f'G2m_{fn}']
-        elif ctx == 'impl Fq12' and fn in ('final_exponentiation', 'final_exp'):
+        elif ctx == 'impl Fq12' and fn in ('final_exponentiation', 'final_exp', 'pow'):
             names = [f'Fq12_{fn}']
         elif ctx == 'impl G2Prepared' and fn in ('get_fq12', 'miller_loop'):
             names = [f'G2Prepared_{fn}']
